@@ -16,6 +16,7 @@ mod c11;
 mod c12;
 mod c07;
 mod c14;
+mod c17;
 mod c19;
 mod c20;
 
@@ -61,6 +62,7 @@ fn main() {
         "C10" => c10::run(&o),
         "C11" => c11::run(&o),
         "C12" => c12::run(&o),
+        "C17" => c17::run(&o),
         "C19" => c19::run(&o),
         "C07" => c07::run(&o),
         "C14" => c14::run(&o),
